@@ -340,13 +340,113 @@ def two_d(ctx):
                     judge('%s/%s/t=%s/arc' % (base, en, tn), site, P, results)
 
 
+def integer_cases(ctx):
+    """poses held in integer (or single precision) arrays - SE3(1, 2, 3) keeps int64, a hand-typed quarter turn too: the interpolant
+    must be the one obtained from the float copy of the same poses (which the other shards judge against the reference)"""
+    import spatialmath as sm
+    import spatialmath.base as b
+    from mc.props.c05 import cube_rotations
+    SV = [('0', 0.0), ('0.25', 0.25), ('0.5', 0.5), ('0.8', 0.8), ('1', 1.0)]
+    rots = cube_rotations()
+    tr3 = [(0, 0, 0), (1, 2, 3), (-4, 0, 7)]
+    for (i0, R0), (i1, R1), (ti, t1) in itertools.product([(0, rots[0]), (5, rots[5])], list(enumerate(rots)), list(enumerate(tr3))):
+        t0 = (0, 0, 0) if i0 == 0 else (2, -1, 5)
+        for dt in ('int64', 'int32'):        # single precision data cannot meet the 100 eps membership test of the classes: not claimed
+            def T_(R, t, d):
+                T = np.eye(4).astype(d)
+                T[:3, :3] = R.astype(d)
+                T[:3, 3] = np.array(t).astype(d)
+                return T
+            ents = []
+            for d in (dt, 'float64'):
+                A, B_ = T_(R0, t0, d), T_(R1, t1, d)
+                e = [('trinterp/4x4', lambda s, A=A, B_=B_: b.trinterp(A.copy(), B_.copy(), s), 'base.trinterp', 'SE3'),
+                     ('SE3.interp', lambda s, A=A, B_=B_: sm.SE3(B_.copy()).interp(s, start=sm.SE3(A.copy())).A, 'SE3.interp', 'SE3')]
+                if ti == 0:
+                    e += [('trinterp/3x3', lambda s, A=A, B_=B_: b.trinterp(A[:3, :3].copy(), B_[:3, :3].copy(), s), 'base.trinterp', 'SO3'),
+                          ('SO3.interp', lambda s, A=A, B_=B_: sm.SO3(B_[:3, :3].copy()).interp(s, start=sm.SO3(A[:3, :3].copy())).A, 'SO3.interp', 'SO3')]
+                if i0 == 0:
+                    e += [('trinterp/4x4/nostart', lambda s, B_=B_: b.trinterp(None, B_.copy(), s), 'base.trinterp', 'SE3'),
+                          ('SE3.interp/nostart', lambda s, B_=B_: sm.SE3(B_.copy()).interp(s).A, 'SE3.interp', 'SE3')]
+                    if i1 == 0 and d != 'float32':
+                        tt = [int(x) if d != 'float64' else float(x) for x in t1]
+                        e += [('SE3(x,y,z).interp', lambda s, tt=tt: sm.SE3(*tt).interp(s).A, 'SE3.interp', 'SE3')]
+                ents.append(e)
+            for (en, f, site, kind), (_, ff, _, _) in zip(*ents):
+                for sn, sv in SV:
+                    cid = 'C11/int/3D/R%d-R%d/t%d/%s/%s/s=%s' % (i0, i1, ti, dt, en, sn)
+                    if not ctx.want(cid):
+                        continue
+                    ctx.case(cid, key=cid, trivial=(i0 == 0 and i1 == 0 and ti == 0))
+                    P = dict(entry=en.split('/')[0], dtype=dt, mode='integer', s=sn)
+                    okf, Tf = call(ff, sv)
+                    ok, T = call(f, sv)
+                    if not okf:
+                        continue
+                    if not ok:
+                        ctx.fail(cid, site, 'raises:' + type(T).__name__, P, 'interpolation between %s poses raised %r (the float copies work)' % (dt, T))
+                        continue
+                    T, Tf = np.asarray(T), np.asarray(Tf, dtype=float)
+                    if T.shape != Tf.shape or T.dtype == object:
+                        ctx.fail(cid, site, 'mismatch', dict(P, what='shape'), 'result shape %s' % (T.shape,))
+                        continue
+                    tol = 1e-9 if dt != 'float32' else 1e-5
+                    d_ = ref.maxdiff(T.astype(float), Tf)
+                    if d_ > tol * 10:
+                        ctx.fail(cid, site, 'mismatch', dict(P, what='dtype'), 'interpolant of the %s poses differs from that of their float copies by %.3g' % (dt, d_))
+    k2 = [np.array([[c, -s_], [s_, c]]) for c, s_ in ((1, 0), (0, 1), (-1, 0), (0, -1))]
+    for (i0, R0), (i1, R1), (ti, t1) in itertools.product(list(enumerate(k2))[:2], list(enumerate(k2)), list(enumerate([(0, 0), (4, -3)]))):
+        t0 = (0, 0) if i0 == 0 else (1, 2)
+        for dt in ('int64', 'int32'):        # single precision data cannot meet the 100 eps membership test of the classes: not claimed
+            def T2(R, t, d):
+                T = np.eye(3).astype(d)
+                T[:2, :2] = R.astype(d)
+                T[:2, 2] = np.array(t).astype(d)
+                return T
+            ents = []
+            for d in (dt, 'float64'):
+                A, B_ = T2(R0, t0, d), T2(R1, t1, d)
+                e = [('trinterp2/3x3', lambda s, A=A, B_=B_: b.trinterp2(A.copy(), B_.copy(), s), 'base.trinterp2'),
+                     ('SE2.interp', lambda s, A=A, B_=B_: sm.SE2(B_.copy()).interp(s, start=sm.SE2(A.copy())).A, 'SE2.interp')]
+                if ti == 0:
+                    e += [('trinterp2/2x2', lambda s, A=A, B_=B_: b.trinterp2(A[:2, :2].copy(), B_[:2, :2].copy(), s), 'base.trinterp2'),
+                          ('SO2.interp', lambda s, A=A, B_=B_: sm.SO2(B_[:2, :2].copy()).interp(s, start=sm.SO2(A[:2, :2].copy())).A, 'SO2.interp')]
+                if i0 == 0:
+                    e += [('trinterp2/3x3/nostart', lambda s, B_=B_: b.trinterp2(None, B_.copy(), s), 'base.trinterp2'),
+                          ('SE2.interp/nostart', lambda s, B_=B_: sm.SE2(B_.copy()).interp(s).A, 'SE2.interp')]
+                ents.append(e)
+            for (en, f, site), (_, ff, _) in zip(*ents):
+                for sn, sv in SV:
+                    cid = 'C11/int/2D/R%d-R%d/t%d/%s/%s/s=%s' % (i0, i1, ti, dt, en, sn)
+                    if not ctx.want(cid):
+                        continue
+                    ctx.case(cid, key=cid, trivial=(i0 == 0 and i1 == 0 and ti == 0))
+                    P = dict(entry=en.split('/')[0], dtype=dt, mode='integer', s=sn)
+                    okf, Tf = call(ff, sv)
+                    ok, T = call(f, sv)
+                    if not okf:
+                        continue
+                    if not ok:
+                        ctx.fail(cid, site, 'raises:' + type(T).__name__, P, 'interpolation between %s poses raised %r (the float copies work)' % (dt, T))
+                        continue
+                    T, Tf = np.asarray(T), np.asarray(Tf, dtype=float)
+                    if T.shape != Tf.shape or T.dtype == object:
+                        ctx.fail(cid, site, 'mismatch', dict(P, what='shape'), 'result shape %s' % (T.shape,))
+                        continue
+                    d_ = ref.maxdiff(T.astype(float), Tf)
+                    if d_ > (1e-8 if dt != 'float32' else 1e-4):
+                        ctx.fail(cid, site, 'mismatch', dict(P, what='dtype'), 'interpolant of the %s poses differs from that of their float copies by %.3g' % (dt, d_))
+
+
 def shards(tier, seed):
     K = 12 if tier == 'quick' else 48
-    return [('3d', k, K) for k in range(K)] + [('2d',)]
+    return [('3d', k, K) for k in range(K)] + [('2d',), ('int',)]
 
 
 def run_shard(ctx, shard):
     if shard[0] == '3d':
         three_d(ctx, shard[1], shard[2])
+    elif shard[0] == 'int':
+        integer_cases(ctx)
     else:
         two_d(ctx)
